@@ -147,7 +147,7 @@ def c03_all(e):
 
 @symx("C03-control-segments", timeout=600, kind="P", functions=F_R,
       bounds="segment lists with an unstyled control segment (bell, cursor-up, CR - what Control / Console.control produce) "
-             "before, after or between styled and unstyled text x is_terminal x colour system: a non-terminal target receives no "
+             "before, after or between styled and unstyled text x is_terminal x colour system x NO_COLOR: a non-terminal target receives no "
              "control codes; a terminal receives them and the visible text unchanged",
       outside="control segments that carry a style: LiveRender flags its (visible, styled) frame lines as control segments so "
               "that they are not recorded, and _render_buffer deliberately writes those to non-terminals too")
@@ -161,7 +161,8 @@ def c03_control(e):
     order = int(e.mk("order", 0, 2))
     body = [Segment("a", st), Segment("b")]
     segs = [ctl] + body if order == 0 else (body + [ctl] if order == 1 else [body[0], ctl, body[1]])
-    c = mk_console(system, False, terminal, False)
+    no_color = bool(e.mkbool("no_color"))
+    c = mk_console(system, no_color, terminal, False)
     with c:
         c._buffer.extend(segs)
     out = c.file.getvalue()
